@@ -180,6 +180,8 @@ impl FeatureState for TravelLimitState {
                         .iter()
                         // consider only jobs with time windows
                         .filter_map(|time_span| time_span.as_time_window())
+                        // NOTE: unbounded time window cannot be used to derive departure time
+                        .filter(|tw| tw.end < f64::MAX)
                         .map(move |tw| (tw, location))
                 })
             })
@@ -198,10 +200,12 @@ impl FeatureState for TravelLimitState {
                 .into_iter()
                 // do not depart outside allowed time
                 .filter(|&departure_time| {
+                    let start_earliest = start_place.time.earliest.unwrap_or(0.);
                     let start_latest = start_place.time.latest.unwrap_or(f64::MAX);
                     let end_latest = actor.detail.end.as_ref().and_then(|place| place.time.latest).unwrap_or(f64::MAX);
 
-                    start_latest.total_cmp(&departure_time) != Ordering::Less
+                    start_earliest.total_cmp(&departure_time) != Ordering::Greater
+                        && start_latest.total_cmp(&departure_time) != Ordering::Less
                         && end_latest.total_cmp(&departure_time) != Ordering::Less
                 })
                 .find(|&departure_time| {
